@@ -1,6 +1,7 @@
 """C02: clean restart preserves everything; index files are rebuildable caches."""
 from lib import l2common
 from lib.props import c01
+from lib import schedcommon as sc
 
 PROPS = "props/C02.v"
 PID = "C02"
@@ -10,7 +11,13 @@ ASSUMPTIONS = c01.ASSUMPTIONS + ["clean shutdown = HStore.Close after the asynch
 
 
 def run(ctx):
-    return c01.run_mode(ctx, MODE, 120 if ctx.tier == "quick" else 4000, PID)
+    res = c01.run_mode(ctx, MODE, 120 if ctx.tier == "quick" else 4000, PID)
+    rs = sc.run_sched(ctx, "closeflush", 0, ctx.seed)
+    for r in rs:
+        res["spec_violations"] += sc.scenario_oracle(r)
+    res["evaluations"] += len(rs)
+    res["dist"]["forced schedules: close vs async flush"] = len(rs)
+    return res
 
 
 def search(ctx, broken):
@@ -29,6 +36,9 @@ def replay(ctx, path):
 
 
 def replay_finding(ctx, f):
+    r0 = replay_finding_sched(ctx, f)
+    if r0 is not None:
+        return r0
     """scripted history of a (fixed) finding: does the reference-map oracle still flag it / does the harness crash?"""
     import os
     from lib import vlib
@@ -39,3 +49,10 @@ def replay_finding(ctx, f):
     except RuntimeError:
         return True
     return bool(l2common.refmap_oracle(c))
+
+
+def replay_finding_sched(ctx, f):
+    which = {"two-gc-passes": "double", "acked-write-lost-at-shutdown": "closeflush"}.get(f.get("trigger"))
+    if not which:
+        return None
+    return any(v["kind"] == f["trigger"] for r in sc.run_sched(ctx, which, 0, 999) for v in sc.scenario_oracle(r))
